@@ -12,7 +12,7 @@ import os
 
 import z3
 
-from engine import zsym
+from engine import shadow, zsym
 from engine.common import Inconclusive
 from engine.zsym import SBool, SInt, explore, rebind, zint
 from engine.zsym import sym_int as SV
@@ -23,13 +23,26 @@ TECHNIQUE = "symbolic execution of the real layout/shard/threshold/restore funct
 logging.disable(logging.CRITICAL)
 
 
+def _sym_int_cast(x, *a):
+    import builtins
+
+    if isinstance(x, zsym.SReal):
+        return x.__trunc__()
+    if isinstance(x, zsym.SInt):
+        return x
+    return builtins.int(x, *a)
+
+
 class FT:
     """Duck-typed tensor: only the attributes the layout code reads."""
 
     def __init__(self, nbytes, name="t"):
         self.nbytes = nbytes
         self.name = name
-        self.dtype = None
+        import onnx_ir as _ir
+
+        self.dtype = _ir.DataType.UINT8     # one byte per element: size == nbytes
+        self.size = nbytes
         self.shape = None
 
     def __repr__(self):
@@ -683,7 +696,9 @@ def ob_restore(chk, K):
 
 def run(chk, tier):
     from onnx_ir import _core as core
-    from onnx_ir import _safetensors as st
+    # the current source of the safetensors backend, with the builtin int() replaced by a cast that keeps symbolic
+    # values symbolic (int(x * itemsize) is how a size may be computed from an element count)
+    st = shadow.load("onnx_ir._safetensors", int=_sym_int_cast)
     from onnx_ir import external_data as ed
 
     quick = tier == "quick"
